@@ -146,7 +146,7 @@ const OTHER_RULES: [&str; 8] = [
 // container serialized in hash order would have >= 24 possible orders.
 // ------------------------------------------------------------------------------------------------
 
-const WIDE: [&[&str]; 20] = [
+const WIDE: [&[&str]; 22] = [
     // 4 fusable rules in one token bucket of `filters`
     &["wide/aa", "wide/bb", "wide/cc", "wide/dd"],
     // one bucket, two fusion groups (the optimizer groups them in a hash map)
@@ -180,6 +180,10 @@ const WIDE: [&[&str]; 20] = [
     // 4 domain hashes per option list
     // repeated rules and rules that contribute the same generic selector twice: a bucket that holds
     // a repetition next to other entries
+    // several plain tagged rules next to a $badfilter rule (the build takes another path when the
+    // list holds a badfilter)
+    &["wide/u1$tag=t1", "wide/u2$tag=t2", "wide/u3$tag=t1", "wide/u4$badfilter"],
+    &["wide/v1$tag=t1", "wide/v2$tag=t1", "wide/v9$image,badfilter", "wide/v3$tag=t2"],
     &["##.cx > b", "##.cx > c", "##.cx > b", "##.cx > d"],
     &["###ix > b", "###ix > c", "###ix > b", "###ix d"],
     &["~a.com##.cx > e", "~b.com##.cx > e", "##.cx > f", "##.cx > g"],
@@ -793,8 +797,8 @@ fn self_check(wide: &[Vec<&'static str>]) -> Result<(), String> {
     // the wide list must really be wide: its buffer differs when any single rule is left out
     for skip in 0..all.len() {
         // (a deliberately repeated rule may be de-duplicated by the engine)
-        if all.iter().filter(|x| x.0 == all[skip].0).count() > 1 {
-            continue;
+        if all.iter().filter(|x| x.0 == all[skip].0).count() > 1 || all[skip].0.contains("badfilter") {
+            continue; // (a $badfilter rule is consumed at build time: nothing of it is stored)
         }
         let mut fewer = all.clone();
         fewer.remove(skip);
